@@ -20,6 +20,7 @@ def run(tier):
               "every integer text n in [%d,%d] in decimal / 0x-hex / bare-hex / octal form plus ~85 boundary and "
               "malformed texts (2^31, 2^32, 2^63, 2^64, 10^23, blanks, signs, garbage) x 8 integer types x 4 formats; "
               "distinct = (getter kind, type, outcome) classes" % (2 if quick else 3, lo, hi))
+    c.rule += " Float getters: 62 texts incl. decimal literals next to the midpoint of two adjacent doubles (exact bit patterns)."
     c.assumptions = ["float values are compared at 9 significant digits (libc %.8e) for double getters only",
                      "64-bit targets: outcomes for magnitudes >= 2^63 are unconstrained, as in the statement",
                      "tokenisation of a one-string command line is split_args (decided under C08)"]
